@@ -1,6 +1,11 @@
 package authz
 
 import (
+	"context"
+
+	corev3 "github.com/envoyproxy/go-control-plane/envoy/config/core/v3"
+	envoy "github.com/envoyproxy/go-control-plane/envoy/service/auth/v3"
+
 	"github.com/istio-ecosystem/authservice/internal/vn"
 )
 
@@ -8,6 +13,31 @@ func init() {
 	verifHarnesses["VerifC14_Session"] = VerifC14_Session
 	verifHarnesses["VerifC14_Callback"] = VerifC14_Callback
 	verifHarnesses["VerifC14_Logout"] = VerifC14_Logout
+	verifHarnesses["VerifC14_ResponseOfEarlierFilter"] = VerifC14_ResponseOfEarlierFilter
+}
+
+// VerifC14_ResponseOfEarlierFilter: the CheckResponse handed to Process may already carry the OK
+// headers an earlier filter of the same chain added for the upstream (tokens). A denial produced
+// by this filter must not carry them over to the user agent.
+func VerifC14_ResponseOfEarlierFilter() {
+	kc := kitConfig(kitCfgOpts{accessToken: vn.Choice("cfg-access-token", 2) == 1, logout: true})
+	store := kitStore(vn.Bound("store-slots", 1), kc.cfg.ClientId, false, false)
+	env := kitHandler(kc.cfg, store, false, false)
+	req, _ := kitArbitraryRequest(kc, vn.Choice("path-shape", 3))
+	earlier := vn.Secret(vn.StringIn("earlier-filter-token", 2, alphaID), 8)
+	vn.Assume(earlier != "")
+	resp := &envoy.CheckResponse{HttpResponse: &envoy.CheckResponse_OkResponse{OkResponse: &envoy.OkHttpResponse{
+		Headers: []*corev3.HeaderValueOption{{Header: &corev3.HeaderValue{Key: "x-earlier", Value: "Bearer " + earlier}}},
+	}}}
+	if err := env.h.Process(context.Background(), req, resp); err != nil || kitOK(resp) {
+		return
+	}
+	vn.Cover("C14/denied-after-earlier-ok", true)
+	d := resp.GetDeniedResponse()
+	vn.Assert("C14/denial-body-clean", vn.TaintOf(d.GetBody()) == 0)
+	for _, h := range d.GetHeaders() {
+		vn.Assert("C14/denial-does-not-carry-earlier-ok-headers", vn.And(vn.TaintOf(h.GetHeader().GetKey()) == 0, vn.TaintOf(h.GetHeader().GetValue()) == 0))
+	}
 }
 
 func VerifC14_Session()  { verifC14(pathAny) }
